@@ -20,11 +20,41 @@ func RunNarrowArith(w *World, r *Report, fns []*ssa.Function) {
 		for _, b := range fn.Blocks {
 			for _, ins := range b.Instrs {
 				bo, ok := ins.(*ssa.BinOp)
-				if !ok || (bo.Op != token.MUL && bo.Op != token.ADD && bo.Op != token.SHL) {
+				if !ok || (bo.Op != token.MUL && bo.Op != token.ADD && bo.Op != token.SHL && bo.Op != token.SUB) {
 					continue
 				}
 				bt, ok := bo.Type().Underlying().(*types.Basic)
 				if !ok || (bt.Kind() != types.Uint8 && bt.Kind() != types.Uint16) {
+					continue
+				}
+				if bo.Op == token.SUB {
+					// x - k wraps at the bottom: below k the result is close to the top of the type
+					if _, isC := bo.Y.(*ssa.Const); !isC {
+						continue
+					}
+					guarded := false
+					stripConv := func(v ssa.Value) ssa.Value {
+						for {
+							c, ok := v.(*ssa.Convert)
+							if !ok {
+								return v
+							}
+							v = c.X
+						}
+					}
+					for _, g := range guardsOf(b) {
+						if cmp, ok := g.cond.(*ssa.BinOp); ok {
+							if stripConv(cmp.X) == bo.X || stripConv(cmp.Y) == bo.X {
+								guarded = true
+							}
+						}
+					}
+					use := sizeUse(bo, 0)
+					if guarded || use == "" {
+						continue
+					}
+					key := r.MkKey("narrowarith", name, fmt.Sprintf("%s in %s", bo.Op, bt.Name()))
+					r.FailC("narrowarith", key, []string{"underflow"}, w.Pos(bo.Pos()), fmt.Sprintf("a constant is subtracted in %s from a value that no dominating test bounds from below, and the result is used as %s: for a value smaller than the constant (0 - 1) the difference wraps to the top of the type and tens of thousands of elements are allocated and read for a record that declares none", bt.Name(), use), nil)
 					continue
 				}
 				_, cx := bo.X.(*ssa.Const)
